@@ -205,6 +205,78 @@ def valid_output(g, c, snap, out):
     return None, "not a judged query"
 
 
+def scenarios(rng):
+    """the three modelled defects as fixed script pairs (run first, every time)"""
+    out = []
+    C = sg.Cmd
+    def named(g, lit, n):
+        t, a = g.aterm(("lit", lit), {}, n)
+        return C("(assert %s)" % t, "A" + a, "assert", formula=g.plain(("lit", lit)), name=n, inner=[])
+    def plain(g, lit):
+        t, a = g.aterm(("lit", lit))
+        return C("(assert %s)" % t, "A" + a, "assert", formula=g.plain(("lit", lit)), name=None, inner=[])
+    for lg in ("QF_LRA", "QF_LIA"):
+        # 1. rejected non-Bool assert, then A: x0<=0, B: x0-x2>4, C: 5<=x2 and interpolants for A | B | C  (DESIGN.md §9 #7)
+        g = sg.Gen(rng, logic=lg, mode="itp", glob=False)
+        cs = g.header()
+        cs.append(g.inject("nonbool-assert"))
+        cs += [named(g, (4, True), 0), named(g, (9, False), 1), named(g, (8, True), 2), C("(check-sat)", "C?", "check-sat"),
+               C("(get-interpolants n0 n1 n2)", "I0/1/2", "get-interpolants", groups=[[0], [1], [2]])]
+        out.append((g, cs, ["nonbool-assert"]))
+    for lg in sg.LOGICS:
+        # 2. a name entered by a term whose command is rejected, then a valid use of that name
+        g = sg.Gen(rng, logic=lg, mode="core", glob=False)
+        cs = g.header()
+        cs.append(C("(assert (and (! p0 :named n1) zz))", "A0:1:n1=%d,x" % g.tid("p0"), "inject:named-then-fail", injected=True, inj="named-then-fail"))
+        cs += [named(g, (1, True), 1), plain(g, (1, False)), C("(check-sat)", "C?", "check-sat"), C("(get-unsat-core)", "K", "get-unsat-core")]
+        out.append((g, cs, ["named-then-fail"]))
+        # 3. (pop 3) at level 2
+        g = sg.Gen(rng, logic=lg, mode="core", glob=False)
+        cs = g.header()
+        cs += [C("(push 1)", "U1", "push"), plain(g, (0, True)), C("(push 1)", "U1", "push"),
+               C("(pop 3)", "P3", "inject:pop-too-many", injected=True, inj="pop-too-many"),
+               plain(g, (0, False)), C("(check-sat)", "C?", "check-sat")]
+        out.append((g, cs, ["pop-too-many"]))
+    return out
+
+
+def first_divergence(ctx, g, cmds, s1, s2):
+    """first non-injected command whose answer in the run with injections (segments s1, indexed like cmds) is not
+    acceptable for the script without them (segments s2): (index, cmd, with, without, kind_with, kind_without, reason)"""
+    tr = Track(g)
+    j = 0
+    for i, c in enumerate(cmds):
+        if c.injected:
+            continue
+        a, b = s1[i].strip(), s2[j].strip()
+        snap = tr.snapshot()
+        tr.step(c, nt.resp_kind(b) != "err")
+        j += 1
+        if a == b:
+            continue
+        ka, kb = nt.resp_kind(a), nt.resp_kind(b)
+        judged = None
+        if c.kind.startswith("get-") and ka == "out" and kb == "out":
+            okw, why = valid_output(g, c, snap, a)
+            if okw is True:
+                if ctx:
+                    ctx.count("differs-but-valid:" + c.kind)
+                continue
+            if okw is None:
+                if ctx:
+                    ctx.count("differs-not-judged:" + c.kind)
+                continue
+            okb, whyb = valid_output(g, c, snap, b)
+            if okb is not True:
+                if ctx:
+                    ctx.count("baseline-invalid:" + c.kind)
+                    ctx.note("baseline output of %s is itself not valid (%s): other property" % (c.kind, whyb))
+                continue
+            judged = why
+        return (i, c, a, b, ka, kb, judged)
+    return None
+
+
 def pick_variant(ctx, exe, runs, lines):
     """the model variant (which repairs) that reproduces the implementation's state after every command"""
     diffs = {}
@@ -222,11 +294,11 @@ def pick_variant(ctx, exe, runs, lines):
         if first is None:
             return v, models
         diffs[v] = first
-    d, cmds = diffs["0000"]
+    d, cmds = diffs[nt.AS_IS]
     ctx.tie_broken("interpreter-state-vs-model", "no model variant reproduces the interpreter; against the as-is model: %s" % d,
                    dict(script=sg.render(cmds[:d["at"] + 1]), diff=d))
-    models, _ = nt.run_model(exe, "0000", lines)
-    return "0000", models
+    models, _ = nt.run_model(exe, nt.AS_IS, lines)
+    return nt.AS_IS, models
 
 
 def run(ctx):
@@ -238,9 +310,13 @@ def run(ctx):
     if not hb:
         ctx.tie_broken("harness-build", l2)
         return
+    import time
+    t0 = time.time()
+    sigs = {}
+    ctx.extra["divergence_signatures"] = sigs
     rng = ctx.rng
-    npairs = 260 if ctx.quick else 4000
-    todo = []
+    npairs = 300 if ctx.quick else 5000
+    todo = scenarios(rng)
     for k in range(npairs):
         g = sg.Gen(rng, glob=(rng.random() < 0.1))
         if rng.random() < 0.7 or k < len(KINDS):
@@ -252,19 +328,24 @@ def run(ctx):
         cmds = sg.history_with_injections(g, rng.randint(10, 34), kinds, rng.randint(1, 3))
         todo.append((g, cmds, kinds))
     # ---- state-level tie on the scripts WITH the injected commands -----------------------------------
+    from concurrent.futures import ThreadPoolExecutor
+    pool = ThreadPoolExecutor(max_workers=8)
     runs, lines = [], []
-    for g, cmds, kinds in todo:
-        segs, dumps, rc, tail = nt.run_harness(hb, cmds, g.NF)
+    for (g, cmds, kinds), (segs, dumps, rc, tail) in zip(todo, pool.map(lambda t: nt.run_harness(hb, t[1], t[0].NF), todo)):
         runs.append((g, cmds, segs, dumps, rc, tail))
         lines.append(sg.abstract_line(cmds, nt.answers_of(cmds, segs), g.NF))
+    bin_with = list(pool.map(lambda t: nt.run_binary(t[1]), todo))
+    bin_without = list(pool.map(lambda t: nt.run_binary([c for c in t[1] if not c.injected]), todo))
+    t1 = time.time()
     variant, models = pick_variant(ctx, exe, runs, lines)
     if variant is None:
         return
+    ctx.extra["timing"] = dict(harness_s=round(t1 - t0, 1), model_s=round(time.time() - t1, 1))
     ctx.extra["model_variant"] = dict(bits=variant, repairs=[n for n, b in zip(nt.FIX_NAMES, variant) if b == "1"] or ["none (code as it is)"])
-    if variant != "0000":
+    if variant != nt.AS_IS:
         ctx.note("the interpreter matches the model variant %s (repairs: %s)" % (variant, ctx.extra["model_variant"]["repairs"]))
     # ---- end-to-end pairs ------------------------------------------------------------------------------
-    for (g, cmds, kinds), (_, _, hsegs, hdumps, hrc, htail), model in zip(todo, runs, models):
+    for (g, cmds, kinds), (_, _, hsegs, hdumps, hrc, htail), model, bw, bwo in zip(todo, runs, models, bin_with, bin_without):
         text = sg.render(cmds)
         inj_idx = [i for i, c in enumerate(cmds) if c.injected]
         without = [c for c in cmds if not c.injected]
@@ -279,8 +360,8 @@ def run(ctx):
                  sample=dict(script=text[:700], injected=[cmds[i].text for i in inj_idx], model_says_state_changes=[cmds[i].text for i in changing]))
         for i in inj_idx:
             ctx.count("injected:%s:%s:%s" % (cmds[i].meta["inj"], nt.resp_kind(hsegs[i]) if i < len(hsegs) else "?", "state-changes" if i in changing else "no-op"))
-        rc1, s1, t1, e1 = nt.run_binary(cmds)
-        rc2, s2, t2, e2 = nt.run_binary(without)
+        rc1, s1, t1, e1 = bw
+        rc2, s2, t2, e2 = bwo
         if rc2 < 0 or rc2 >= 128 or len(s2) < len(without):
             ctx.note("baseline script terminates abnormally (rc=%s): not a C19 matter, pair skipped" % rc2)
             ctx.count("pair-skipped:baseline-crash")
@@ -294,47 +375,37 @@ def run(ctx):
         if not_rejected:
             ctx.count("pair-skipped:injection-not-rejected:" + cmds[not_rejected[0]].meta["inj"])
             continue
-        # align the non-injected commands
-        tr = Track(g)
-        j = 0
-        diverged = None
-        for i, c in enumerate(cmds):
-            if c.injected:
-                continue
-            a, b = s1[i].strip(), s2[j].strip()
-            snap = tr.snapshot()
-            tr.step(c, nt.resp_kind(b) != "err")
-            j += 1
-            if a == b:
-                continue
-            ka, kb = nt.resp_kind(a), nt.resp_kind(b)
-            judged = None
-            if c.kind.startswith("get-") and ka == "out" and kb == "out":
-                okw, why = valid_output(g, c, snap, a)
-                if okw is True:
-                    ctx.count("differs-but-valid:" + c.kind)
-                    continue
-                if okw is None:
-                    ctx.count("differs-not-judged:" + c.kind)
-                    continue
-                okb, whyb = valid_output(g, c, snap, b)
-                if okb is not True:
-                    ctx.count("baseline-invalid:" + c.kind)
-                    ctx.note("baseline output of %s is itself not valid (%s): other property" % (c.kind, whyb))
-                    continue
-                judged = why
-            diverged = (i, c, a, b, ka, kb, judged)
-            break
+        diverged = first_divergence(ctx, g, cmds, s1, s2)
         if diverged is None:
             continue
         i, c, a, b, ka, kb, judged = diverged
         before = [k for k in changing if k < i]
-        cause = cmds[before[0]].meta["inj"] if before else "unexplained(%s)" % "+".join(sorted(set(cmds[k].meta["inj"] for k in inj_idx if k < i)))
+        cause = None
+        if len(set(cmds[k].meta["inj"] for k in before)) > 1:
+            # several state-changing kinds precede the divergence: find the one that reproduces it on its own
+            for k in before:
+                only = [c2 for j2, c2 in enumerate(cmds) if not c2.injected or j2 == k]
+                rck, sk, tk, ek = nt.run_binary(only)
+                if rck < 0 or rck >= 128 or len(sk) < len(only):
+                    cause = cmds[k].meta["inj"]
+                    break
+                dk = first_divergence(None, g, only, sk, s2)
+                if dk is not None and dk[1] is c:
+                    cause = cmds[k].meta["inj"]
+                    break
+            if cause is None:
+                cause = "+".join(sorted(set(cmds[k].meta["inj"] for k in before)))
+        elif before:
+            cause = cmds[before[0]].meta["inj"]
+        else:
+            cause = "unexplained(%s)" % "+".join(sorted(set(cmds[k].meta["inj"] for k in inj_idx if k < i)))
         sig = "%s:%s" % (cause, c.kind)
+        sigs[sig] = sigs.get(sig, 0) + 1
         what = "after the rejected %s, %s answers %r where the script without it answers %r%s" % (
             [cmds[k].text for k in (before or [k for k in inj_idx if k < i])][:2], c.text, a[:160], b[:160], (" -- " + judged) if judged else "")
         ctx.violation(sig, what, dict(with_script=text, without_script=sg.render(without), command=c.text, with_output=a, without_output=b,
                                        injected=[cmds[k].text for k in inj_idx], model_says_state_changes=[cmds[k].text for k in changing],
                                        logic=g.logic, mode=g.mode))
+        ctx.extra["timing"]["pairs_s"] = round(time.time() - t0, 1)
         if not before:
             ctx.tie_broken("divergence-without-modelled-state-change", "%s: %s" % (sig, what[:300]), dict(with_script=text))
